@@ -570,6 +570,18 @@ def impl(case):
         return run_hist(case["script"])
     if k == "text":
         return _text_obs(case["text"])
+    if k == "itshist":
+        from synkit.IO.chem_converter import its_to_gml
+        I = to_nx(case["its"])          # ONE object, exported, edited in place, exported again
+        out = []
+        for j in range(len(case["edits"]) + 1):
+            # the first export after an edit repeats the options of the last export before it
+            for core, reindex in (((True, False), (False, True)) if j % 2 == 0 else ((False, True), (True, False))):
+                text = its_to_gml(I, core=core, reindex=reindex)
+                out.append([rec_obs(text_to_rec(text)), parsed_obs(text)])
+            if j < len(case["edits"]):
+                _apply_its_edit(I, case["edits"][j])
+        return out
     if k == "rxn":
         from ..gen import c10_rxn
         if rxn_graphs(case["rsmi"]) is None:
@@ -645,6 +657,12 @@ def coq_case(case):
             return coq_hist(case["script"])
         if k == "text":
             return "run_text2 %s" % enc_str(case["text"])
+        if k == "itshist":
+            parts = []
+            for j, g in enumerate(_its_after_edits(case)):
+                for core, reindex in (((True, False), (False, True)) if j % 2 == 0 else ((False, True), (True, False))):
+                    parts.append("(let rec := its_to_gml %s %s %s false in L [t_rec rec; t_parsed (gml_to_nx rec)])" % (enc_gr(g), cbool(core), cbool(reindex)))
+            return clistL(parts)
         if k == "rxn":
             x = rxn_graphs(case["rsmi"])
             if x is None:
@@ -668,6 +686,34 @@ def coq_case(case):
     except Outside:
         return None
     raise AssertionError(k)
+
+
+def _its_after_edits(case):
+    """kind "itshist": the ITS after 0, 1, 2, ... of the case's in-place edits (JSON graphs; edits keep node and edge counts)"""
+    import copy
+    g = copy.deepcopy(case["its"])
+    out = [copy.deepcopy(g)]
+    for ed in case["edits"]:
+        if ed[0] == "edge":
+            for e in g["edges"]:
+                if {e[0], e[1]} == {ed[1], ed[2]}:
+                    e[2]["order"] = list(ed[3])
+                    e[2]["standard_order"] = ed[3][0] - ed[3][1]
+        elif ed[0] == "charge":
+            for n, a in g["nodes"]:
+                if n == ed[1]:
+                    a["typesGH"][1][3] = ed[2]
+        out.append(copy.deepcopy(g))
+    return out
+
+
+def _apply_its_edit(I, ed):
+    if ed[0] == "edge":
+        I[ed[1]][ed[2]]["order"] = tuple(ed[3])
+        I[ed[1]][ed[2]]["standard_order"] = ed[3][0] - ed[3][1]
+    elif ed[0] == "charge":
+        t = I.nodes[ed[1]]["typesGH"]
+        I.nodes[ed[1]]["typesGH"] = (t[0], tuple(list(t[1][:3]) + [ed[2]] + list(t[1][4:])))
 
 
 def _hh_without_std(g):
@@ -1617,6 +1663,24 @@ def oracle(case):
         return _oracle_smart(case)
     if k == "hist":
         return _oracle_hist(case)
+    if k == "itshist":
+        # every export of the shared, edited object must be the export of a FRESH graph with the same content
+        from synkit.IO.chem_converter import its_to_gml, gml_to_its
+        from synkit.Graph.ITS.its_decompose import get_rc
+        fails = []
+        I = to_nx(case["its"])
+        graphs = _its_after_edits(case)
+        for j, g in enumerate(graphs):
+            fresh = to_nx(g)
+            if _is_wellformed_its(fresh):
+                want = _its_struct(get_rc(fresh))
+                got = _its_struct(gml_to_its(its_to_gml(I, core=True, reindex=False)))
+                if got != want:
+                    fails.append(_fail("gml-roundtrip", "%s: after %d in-place edit(s) of the SAME ITS object its_to_gml / gml_to_its does not give the centre of the edited graph"
+                                       % (case.get("name", "itshist"), j)))
+            if j < len(case["edits"]):
+                _apply_its_edit(I, case["edits"][j])
+        return fails[:3]
     if k == "rxn":
         from ..gen import c10_rxn
         x = rxn_graphs(case["rsmi"])
@@ -1644,7 +1708,7 @@ def nontrivial(case, obs):
         return any(a.get("hcount") or a.get("element") == "H" for _, a in case["g"]["nodes"])
     if k == "mol":
         return isinstance(obs, list) and obs != ["NOGRAPH"]
-    if k in ("hist", "text", "rxn", "itsrsmi", "imph"):
+    if k in ("hist", "text", "rxn", "itsrsmi", "imph", "itshist"):
         return True
     if k in ("parse", "gmlsmart"):
         return any(es for _, es in case["rec"])
@@ -1914,6 +1978,14 @@ def _hist_scripts(smi, other):
                                           dict(op="s2g", smiles=smi, **{"as": "e"}), dict(op="g2m", g="e"), dict(op="g2m", g="d")]),
         ("builders-and-options", [dict(op="variants", smiles=smi), dict(op="s2g", smiles=smi, **{"as": "a"}), dict(op="g2s_pres", g="a", preserve=[]),
                                   dict(op="g2s_pres", g="a", preserve=[3]), dict(op="obs", g="a"), dict(op="g2m", g="a")]),
+        # the SAME graph object converted, edited in place WITHOUT changing node / edge counts, converted again (a memo keyed by
+        # the object and validated by its size would serve the stale answer)
+        ("edit-between-conversions", [dict(op="s2g", smiles=smi, **{"as": "a"}), dict(op="hexp", g="a", **{"as": "e"}), dict(op="g2m", g="a"),
+                                      dict(op="himp", g="a", **{"as": "i0"}), dict(op="g2s_pres", g="a", preserve=[]),
+                                      dict(op="edit", g="a", what=["hc", 1, 4]), dict(op="hexp", g="a", **{"as": "e2"}), dict(op="g2m", g="a"),
+                                      dict(op="himp", g="e2", **{"as": "i2"}), dict(op="edit", g="a", what=["ch", 1, 1]), dict(op="g2m", g="a"),
+                                      dict(op="hexp", g="a", nodes=[1], **{"as": "e3"}), dict(op="edit", g="a", what=["hc", 1, 0]),
+                                      dict(op="hexp", g="a", **{"as": "e4"}), dict(op="himp", g="a", **{"as": "i4"}), dict(op="obs", g="a")]),
         ("converter-objects-reused", [dict(op="conv", smiles=[smi, other, smi, other]), dict(op="s2g", smiles=smi, **{"as": "a"}), dict(op="g2m", g="a")]),
         # the same converter objects on DIFFERENT molecules of the SAME size and shape
         ("converter-objects-same-size", [dict(op="conv", smiles=["CCO", "CCN", "CC[O-]", "C[NH2+]C", "CC=O", "CCO"]),
@@ -2008,7 +2080,7 @@ def _hist_cases(quick, rng):
                 continue        # does not depend on the SMILES: once
             if not rec["atoms"] and any(st["op"] == "edit" or st.get("nodes") for st in script):
                 continue        # edits address atom 1
-            if quick and rng.random() < 0.4 and nm not in ("reduced-then-default", "default-reduced-default", "converter-objects-same-size", "builders-and-options"):
+            if quick and rng.random() < 0.4 and nm not in ("reduced-then-default", "default-reduced-default", "converter-objects-same-size", "builders-and-options", "edit-between-conversions"):
                 continue
             out.append(dict(kind="hist", script=script, name="hist/%s/%d" % (nm, j)))
     return out
@@ -2237,4 +2309,18 @@ def gen_cases(tier, rng):
                           + ([[False, False, True]] if i % 3 == 0 or not quick else []),
                           name="its-full/%s/%d" % (src, j)))
         cases.append(dict(kind="its", its=rc, cfgs=[[True, True, False], [True, False, False]], name="its-centre/%s/%d" % (src, j)))
+        if i % 4 == 2 or not quick:
+            # one ITS object exported, edited in place (counts unchanged), exported again
+            un = [(u, v, a) for u, v, a in full["edges"] if a["order"][0] == a["order"][1] == 1]
+            rcn = [n for n, _ in rc["nodes"]]
+            eds = []
+            if un:
+                u, v, _a = un[rng.randrange(len(un))]
+                eds.append(["edge", u, v, [1, rng.choice([2, 0])]])
+            if rcn:
+                n0 = rcn[rng.randrange(len(rcn))]
+                q = [a["typesGH"][1][3] for n, a in full["nodes"] if n == n0][0]
+                eds.append(["charge", n0, q + 1])
+            if eds:
+                cases.append(dict(kind="itshist", its=full, edits=eds, name="itshist/%s/%d" % (src, j)))
     return cases
